@@ -168,6 +168,17 @@ class Expect:
                 nxt = parts[i + 1] if i + 1 < len(parts) else None
                 if nxt is not None and nxt[0] == 'expr' and exprs.trailing_dollars(lit) % 2 == 1:
                     # "$${expr}" is the escape: a literal "${" + the expression text as written + "}"
+                    if names_only and any(q[2] == nxt[2] for q in live):
+                        # (third effect of the known route: the escaped text reads as a placeholder of the mapping, too -
+                        # unless the literal '$' before it escapes it again for simple_translate)
+                        head = exprs.undouble(lit[:-1])
+                        v = exprs.evaluate(nxt[1], self.env) if nxt[3] is None else None
+                        if (''.join(out) + head).endswith('$'):
+                            out.append(head + '${' + nxt[2] + '}')
+                        else:
+                            out.append(head + ('None' if v is None else value_text(region.ctx, v)))
+                        i += 2
+                        continue
                     out.append(exprs.undouble(lit[:-1]) + '${' + nxt[2] + '}')
                     i += 2
                     continue
